@@ -17,7 +17,10 @@ macro_rules! with_prop {
             "C05" => $m!(props::C05, $($args)*),
             "C08" => $m!(props::C08, $($args)*),
             "C10" => $m!(props::C10, $($args)*),
+            "C11" => $m!(props::C11, $($args)*),
             "C13" => $m!(props::C13, $($args)*),
+            "C16" => $m!(props::C16, $($args)*),
+            "C17" => $m!(props::C17, $($args)*),
             "C18" => $m!(props::C18, $($args)*),
             "C20" => $m!(props::C20, $($args)*),
             other => {
